@@ -657,6 +657,10 @@ class err_gs(err_node):
         #elif '6' in err_codes: return 'E'
         if len(self.errors) > 0:
             return 'R'
+        for ele in self.elements:
+            # GS/GE element errors reject the group as well
+            if ele.get_error_count() > 0:
+                return 'R'
         return 'A'
 
     def count_failed_st(self):
